@@ -281,11 +281,17 @@ type c13Seg struct {
 	Sep string `json:"sep"` // sp | nl | dot | nbsp | none
 }
 
+type c13Probe struct {
+	D1 int `json:"d1"`
+	D2 int `json:"d2"`
+}
+
 type c13Profile struct {
-	Prof  []c13Seg `json:"prof"`
-	Unit  string   `json:"unit"`
-	Limit int      `json:"limit"`
-	Cpt   int      `json:"cpt"`
+	Probe *c13Probe `json:"probe,omitempty"`
+	Prof  []c13Seg  `json:"prof"`
+	Unit  string    `json:"unit"`
+	Limit int       `json:"limit"`
+	Cpt   int       `json:"cpt"`
 }
 
 // c13Expand repeats the segments until the text has at least want bytes.
@@ -332,6 +338,40 @@ func c13Expand(p []c13Seg, want int) [][3]int {
 	return runs
 }
 
+// c13ProbeRuns: ASCII prose of about 2.6 x l bytes with a space at least every 10
+// bytes whose only sentence ends ('.' followed by a space) lie at byte l+d1 and
+// l+d2 (999 = none): break positions just before / at / just after the limit
+// position l and the edges of the split search windows.
+func c13ProbeRuns(l int, pr c13Probe) [][3]int {
+	t := l*26/10 + 7
+	kind := make([]int, t) // 0 letter, 1 space, 3 sentence end
+	for _, d := range []int{pr.D1, pr.D2} {
+		if p := l + d; d != 999 && p >= 1 && p < t-2 {
+			kind[p], kind[p+1] = 3, 1
+		}
+	}
+	run := 0
+	for i := 0; i < t-1; i++ {
+		switch {
+		case kind[i] == 1:
+			run = 0
+		case run >= 9 && kind[i] == 0 && kind[i+1] != 3:
+			kind[i], run = 1, 0
+		default:
+			run++
+		}
+	}
+	var runs [][3]int
+	for _, k := range kind {
+		if n := len(runs); n > 0 && runs[n-1][1] == k {
+			runs[n-1][2]++
+		} else {
+			runs = append(runs, [3]int{1, k, 1})
+		}
+	}
+	return runs
+}
+
 func c13MaxBytes(unit string, limit, cpt int) int {
 	switch unit {
 	case "tokens":
@@ -360,6 +400,9 @@ func c13RunProfile(pr c13Profile, raw []byte, withChunkers bool) Result {
 		h = h*31 + sg.Wl*7 + sg.Cw*3 + len(sg.Sep)
 	}
 	runs := c13Expand(pr.Prof, mb*(20+h%23)/10+h%7)
+	if pr.Probe != nil {
+		runs = c13ProbeRuns(mb, *pr.Probe)
+	}
 	text := c13Render(runs)
 	tag := c13Tag(text)
 	cfg := c13SizeConfig(pr.Unit, pr.Limit, pr.Cpt)
@@ -459,11 +502,11 @@ func c13RandProfile(rnd *rand.Rand) c13Profile {
 	case 2:
 		pr.Unit, pr.Limit = "paragraphs", 1+rnd.Intn(3)
 	case 3, 4, 5:
-		pr.Unit, pr.Limit = "tokens", []int{1, 7, 50, 64, 101, 200}[rnd.Intn(6)]
+		pr.Unit, pr.Limit = "tokens", []int{1, 7, 50, 64, 101, 200, 200, 257}[rnd.Intn(8)]
 	default:
 		pr.Unit, pr.Limit = "characters", []int{1, 5, 31, 200, 201, 257, 400, 999}[rnd.Intn(8)]
 	}
-	pr.Cpt = []int{4, 4, 4, 2, 5}[rnd.Intn(5)]
+	pr.Cpt = []int{4, 4, 2, 5, 1, 10}[rnd.Intn(6)] // TokensPerChar 0.25, 0.5, 0.2, 1.0, 0.1
 	return pr
 }
 
